@@ -52,7 +52,10 @@ impl Function {
     pub fn abs(val: Val) -> Result<Val> {
         use Val::*;
         match val {
-            Integer(n) => Ok(Integer(n.abs())),
+            Integer(n) => match n.checked_abs() {
+                Some(i) => Ok(Integer(i)),
+                None => Err(error!(Overflow)),
+            },
             Single(n) => Ok(Single(n.abs())),
             Double(n) => Ok(Double(n.abs())),
             String(_) | Return(_) | Next(_) => Err(error!(TypeMismatch)),
